@@ -62,5 +62,11 @@ Section Wrappers.
     end.
 
   (** histories of wrapper calls *)
-  Inductive wop := WReadline | WReadAll | WReadN (n : nat) | WReadlines.
+  Inductive wop := WReadline | WReadAll | WReadN (n : nat) | WReadlines
+               | WCall (k : kind) (ps : list (entry rx)) (t0 : bool).      (* an ordinary expect-family call in between *)
 End Wrappers.
+Arguments WReadline {rx}.
+Arguments WReadAll {rx}.
+Arguments WReadN {rx} n.
+Arguments WReadlines {rx}.
+Arguments WCall {rx} k ps t0.
